@@ -17,10 +17,19 @@ transfer algebra.  What this harness does on every run:
 * Streams: 'generated' (bricks with arbitrary node ids / storage orders x parameter sweep, single transfers), 'history'
   (ONE MeshCompressor object used for a sequence of transfers with varying knn - A, B, A / repetitions / free sequences -
   laws and model correspondence after every call; the conversion matrices are lru_cached per (object, knn)),
-  'order-sweep' (one geometry and id set under every storage order class of the node table, dist_thresh = 0), 'merge'.
+  'order-sweep' (one geometry and id set under every storage order class of the node table, dist_thresh = 0), 'merge',
+  'sharp-edge' (c20_shapes: bodies with knife / blunt / reflex boundary edges - prisms over kite, triangle, wedge, cut
+  square, L, star, parallelogram cross-sections, cut Freudenthal bricks - hex and tet, full sweep of cos_thresh incl.
+  negative values and values just above / below the cosines of the body's own edges, dist_thresh = 0), 'thin-layer'
+  (vertices ARE merged, knn in {2, 3, 5}, duplicate representatives in the neighbour lists; all transfers).
 * A volume change without vertex merge is classified exactly: `classify_volume_change` says whether the output kept
-  the input coordinates of the nodes it kept and whether the threshold can have merged two adjacent non-coplanar
-  boundary faces of an output group (the known finding); anything else gets the suffix-free signature.
+  the input coordinates of the nodes it kept, and `c20_shapes.merge_account` replays the run with femio's own kernels and
+  computes, for every edge removal that was APPLIED, the exact rational cosine of the fan normals of the two faces the
+  decision was taken on (tied to `Femio.C20.admits`, theorem C20_admit_iff_cos): only a run all of whose non-coplanar
+  merges have cos >= cos_thresh gets the known signature `...:faces-merged-across-an-angle`; a merge below the threshold
+  (e.g. the negative cosine of a knife edge) keeps the suffix-free signature, which is not known.
+* The total volume is also taken with femio's own polyhedron kernel (`calculate_element_volumes(mode='linear')`) on the
+  input and on every output without vertex merge and compared with the exact fan volume (relative 1e-9).
 * Every compress() is first tried in a forked child under a memory and a time cap (`dry_run`): a kernel that no longer
   ends is reported as `compress:runaway` with its input instead of taking the whole check down.
 """
@@ -38,7 +47,7 @@ from . import common as C
 from . import meshgen as MG
 
 PROP = 'C20'
-LEAN_MODULES = ['Femio.Props.C20', 'Femio.Props.C20Pipeline']
+LEAN_MODULES = ['Femio.Props.C20', 'Femio.Props.C20Pipeline', 'Femio.Props.C20Admit']
 THEOREMS = []          # filled from the audit list below
 PARTIAL = [
     'the CHOICE of clusters / edges / vertex pairs made by the heuristics of compress() (randomised face hashing, float '
@@ -49,8 +58,13 @@ PARTIAL = [
     'cos_thresh merges of nearly coplanar faces remain the known finding volume-angle-merge',
     'the construction of the conversion matrices (calculate_nodal_knn / calculate_elemental_knn) is observed, not '
     'modelled: C20_rows_cols_nonempty is about the matrix assembled from a given neighbour table',
+    'the admission decision of remove_edges is modelled for ONE pair of faces (Model/CompressAdmit.lean: fan normal, exact '
+    'cos >= T; theorems C20_admit_iff_cos, C20_fan_normal_rotate) and tied to the harness on every applied merge of every run '
+    'whose volume changed; WHICH faces are current when a round of remove_edges decides (normals are taken once per round) is '
+    'replayed with femio\'s own kernels (c20_shapes.merge_account), not modelled',
 ]
 from . import c20_steps as _steps  # noqa: E402
+from . import c20_shapes as _shapes  # noqa: E402
 RULE = ('meshes: tet (6 Kuhn tets per cell) and hex bricks of 1..3 cells per axis under a random rational affine map with '
         'positive determinant, node ids dense/sparse/large in ascending/descending/shuffled storage order; parameters: '
         'elem_num in {1,2,3,5,8,n,2n} x cos_thresh in {1-1e-9, 0.999, 0.99, 0.9, 0.5, 0, -1} x dist_thresh in {0, 0.1, 0.5, 2} '
@@ -61,12 +75,27 @@ RULE = ('meshes: tet (6 Kuhn tets per cell) and hex bricks of 1..3 cells per axi
         'order-sweep: asc/desc/shuf/midshuf/swap2 storage of one mesh, dist_thresh=0, cos_thresh in {1-1e-9, 0.999}; '
         'shallow-angle: hex / tet bricks with anisotropic dyadic cell sizes whose top surface carries a roof ridge / valley '
         '(tet: or a single raised node) of slope 2^-13 .. 2^-10 (faces exactly planar, meeting at 1 - cos = 3e-8 .. 2e-6), '
-        'elem_num in {1,2,3}, cos_thresh in {1, 1-1e-9}, dist_thresh = 0: no angle merge is admitted, volume exactly conserved')
+        'elem_num in {1,2,3}, cos_thresh in {1, 1-1e-9}, dist_thresh = 0: no angle merge is admitted, volume exactly conserved; '
+        'sharp-edge: prisms (1..3 layers, integer heights incl. thin slabs) over kite / isosceles / right-triangle / cut-square / L / '
+        '4-star / parallelogram cross-sections with apex angles 2 atan(p/q) = 10.4 .. 176.4 degrees, each a conforming union of convex '
+        'quadrilaterals refined 1..3 times, as hex or as tet (every hex pulled from its smallest node id), and Freudenthal tet bricks '
+        'cut by 1..3 planes x_i - x_j >= k with anisotropic integer cell sizes (refined tets, wedges, cut cubes); integer coordinates '
+        'under an integer affine map (scaled rotations, in-plane shears, oblique extrusions, random), node ids 1..n in a random numbering '
+        'under asc/desc/shuf/midshuf/swap2 storage; elem_num in {1,2,3,4,8,n/2,n}; cos_thresh from {1-1e-9, .999, .99, .95, .9, .7, .5, '
+        '.2, 0, -.2, -.5, -.9, -.97, -.999, -1} or c +- {1e-6, 1e-3, 2e-2} / -c +- ... for the cosine c of one of the body\'s own '
+        'boundary edges; dist_thresh = 0; the evidence counts the cases whose threshold lies between c and |c| of a knife edge '
+        '(sign-sensitive) and within 1e-3 of a body cosine; thin-layer: hex / tet bricks with one or two layers of thickness 1/4 or '
+        '1/8 along one axis, dist_thresh in {3/8, 1/2, 3/4}, elem_num mostly >= the cell count, knn in {2,3,5}: vertices merged and '
+        'neighbour lists with a duplicate representative are counted; all 8 transfers, every third case as a knn history A,B,A')
 ASSUMPTIONS = [
     'node indices are < 2^32 (the code packs a directed edge into one int64)',
     'face hashes (random base modulo 2^61-1) do not collide',
     'the volume of a cell with non-planar faces is taken by the fan triangulation from each face\'s first node, which is '
-    'what femio\'s polyhedron volume kernel computes',
+    'what femio\'s polyhedron volume kernel computes (checked: calculate_element_volumes(mode="linear") on the input and on every '
+    'output without vertex merge agrees with the exact fan volume at relative 1e-9 of the sum of the absolute fan terms)',
+    'a face merge counts as admitted by cos_thresh when the exact cosine of the fan normals of the two faces (as they were when the '
+    'round of remove_edges took its decisions) is >= cos_thresh - 1e-10; the allowance covers the rounding of the code\'s float unit '
+    'normals and their dot product; thresholds derived from a cosine of the body are placed >= 1e-6 away from it',
     'float results of the transfer functions are compared with the exact rational model values at relative tolerance 1e-9',
     'a compress() of a generated brick (<= 162 cells) that needs more than 2 GiB of additional address space or more than '
     '150 s in the dry run is reported as compress:runaway (on the tree as delivered: < 1 s, a few MiB)',
@@ -77,6 +106,8 @@ THEOREMS = ['C20_checker_sound', 'C20_check_polyhedron_spec', 'C20_checker_set_n
             'C20_merge_closed', 'C20_merge_closed_additive_nodup', 'C20_merge_closed_nodup', 'C20_edge_merge', 'C20_edge_merge_flux', 'C20_nodes_exact', 'C20_mean_constants', 'C20_mean_constants_back', 'C20_sum_total',
             'C20_sum_total_back', 'C20_sum_broadcast_counterexample', 'C20_rows_cols_nonempty']
 THEOREMS = THEOREMS + list(_steps.THEOREMS)      # Props/C20Pipeline.lean
+THEOREMS = THEOREMS + ['C20_admit_iff_cos', 'C20_unsigned_test_counterexample', 'C20_fan_normal_rotate', 'C20_fan_normal_rotate_k',
+                       'C20_upstream_normal_counterexample', 'C20_upstream_admits_knife_edge']      # Props/C20Admit.lean
 
 
 def quiet(f, *a, **k):
@@ -118,6 +149,11 @@ def fan_vol6(faces, pos):
         for i in range(2, len(f)):
             v += MG.det3(a, pos[f[i - 1]], pos[f[i]])
     return v
+
+
+def fan_abs6(cells, pos):
+    """natural scale of the fan volume: sum of the absolute values of its terms (6 x)"""
+    return sum(abs(MG.det3(pos[f[0]], pos[f[i - 1]], pos[f[i]])) for c in cells for f in parse_flat(c) for i in range(2, len(f))) or F(1)
 
 
 def face_normal(f, pos):
@@ -414,10 +450,18 @@ def read_faces(t):
     return t.lst(lambda: t.lst(t.nat))
 
 
-def classify_volume_change(mc, raw_cells, out_cells, pos0, pos1, conv1, cos_thresh):
-    """Why did the volume change although no vertex was merged?  -> (explanation, is it the known shape of failure?).
-    Known shape (findings/C20-volume-angle-merge.md): the output keeps the input coordinates of the nodes it keeps and
-    some output group has two adjacent boundary faces in different planes that the threshold lets `remove_edges` merge."""
+KNOWN_SUFFIX = ':faces-merged-across-an-angle'
+
+
+def classify_volume_change(ctx, mc, poly, params, real_final, raw_cells, out_cells, pos0, pos1, conv1):
+    """Why did the volume change although no vertex was merged?  -> (explanation, suffix of the failure signature).
+    Known shape (findings/C20-volume-angle-merge.md): the output keeps the input coordinates of the nodes it keeps and the
+    faces that were merged across an angle are faces the threshold ADMITS: for every edge removal the run applied
+    (`c20_shapes.merge_account`: staged replay with femio's own kernels) the exact rational cosine of the normals of the two
+    faces the decision was taken on is >= cos_thresh (minus the rounding allowance of the code's float test).  A run that
+    merged two faces whose cosine is below the threshold (e.g. the negative cosine of a knife edge) is NOT explained by the
+    known finding, whatever else it merged."""
+    cos_thresh = params['cos_thresh']
     K = len(pos1)
     back = {}
     for v, k in enumerate(conv1):
@@ -431,7 +475,30 @@ def classify_volume_change(mc, raw_cells, out_cells, pos0, pos1, conv1, cos_thre
             return (f'coordinates-not-kept: {len(moved)} of the {K} output nodes do not have the coordinates of the input node they '
                     f'stand for (output node {k} = input node at position {back[k][0]}: {[float(x) for x in pos1[k]]} vs '
                     f'{[float(x) for x in pos0[back[k][0]]]}); with the input coordinates the same faces enclose {float(vol_back / 6):.12g}',
-                    False)
+                    '')
+    try:
+        acc = _shapes.merge_account(poly, params, real_final, ctx)
+    except RuntimeError:        # the model driver answered with an error: not something to swallow
+        raise
+    except Exception:  # noqa   (the account is a diagnosis; the static classification below still applies)
+        acc = None
+    ctx.count('volume-change:account-of-the-applied-merges:' + ('available' if acc is not None else 'NOT-available(static classification)'))
+    if acc is not None:
+        plain = [r for r in acc if r[3] == 'NOT-admitted']
+        flip = [r for r in acc if r[3].startswith('NOT-admitted(')]
+        adm = [r for r in acc if r[3].startswith('admitted')]
+        if plain or flip:
+            st, a, b, cls, c, f1, f2 = (plain or flip)[0]
+            return (f'merge-not-admitted: {len(plain) + len(flip)} of the {len(acc)} edge removals of the run merged two faces that cos_thresh '
+                    f'does not admit (first: round {st + 1} of remove_edges, edge {a}-{b} between the faces {f1} and {f2} (node positions in '
+                    f'the polyhedral input), cosine of their normals {c:.9f} < cos_thresh = {cos_thresh}) [{cls}]; '
+                    f'{len(adm)} further removals crossed an admitted angle',
+                    '' if plain else ':normal-of-non-convex-face')
+        if adm:
+            return (f'angle-merge-admitted: {len(adm)} of the {len(acc)} edge removals of the run merged two faces that are not coplanar, '
+                    f'all with cos >= cos_thresh (smallest {min(r[4] for r in adm):.9f})', KNOWN_SUFFIX)
+        return (f'only-coplanar-merges: all {len(acc)} edge removals of the run merged two coplanar planar faces, which cannot change '
+                'the volume', '')
     conv = [int(e) for e in mc.elem_conv]
     if len(conv) == len(raw_cells) and all(-1 <= e < len(out_cells) for e in conv):
         groups = [([raw_cells[p] for p in range(len(conv)) if conv[p] == g], True) for g in range(len(out_cells))]
@@ -439,9 +506,10 @@ def classify_volume_change(mc, raw_cells, out_cells, pos0, pos1, conv1, cos_thre
     else:
         groups = [(raw_cells, False)]
     if admits_angle_merge(groups, pos0, cos_thresh):
-        return 'angle-merge-admitted: the threshold admits merging two adjacent faces of an output group that are not coplanar', True
+        return ('angle-merge-admitted(static: the staged replay was not usable): the threshold admits merging two adjacent faces of an '
+                'output group that are not coplanar'), KNOWN_SUFFIX
     return ('no-angle-merge-possible: in no output group do two adjacent boundary faces in different planes reach cos_thresh, '
-            'so only coplanar faces can have been merged'), False
+            'so only coplanar faces can have been merged'), ''
 
 
 def compress_case(ctx, m, params, label='generated'):
@@ -528,14 +596,33 @@ def compress_case(ctx, m, params, label='generated'):
                            'vertices-merged(not-compared)' if merged_vertices else 'no-vertex-merged'))
     if evaluable and not merged_vertices:
         if vol1 != vol0:
-            why, known_shape = classify_volume_change(mc, raw_cells, out_cells, pos0, pos1, conv1, params['cos_thresh'])
-            ctx.fail('volume:changed-without-vertex-merge' + (':faces-merged-across-an-angle' if known_shape else ''),
+            why, suffix = classify_volume_change(ctx, mc, poly, params, [parse_flat(c) for c in cells_of((ip0, d0))], raw_cells,
+                                                      out_cells, pos0, pos1, conv1)
+            ctx.fail('volume:changed-without-vertex-merge' + suffix,
                      f'no vertices were merged (dist_thresh={params["dist_thresh"]}) but the total volume is {float(vol1 / 6):.12g}, '
                      f'original {float(vol0 / 6):.12g} (ratio {float(vol1 / vol0):.6f}); cos_thresh={params["cos_thresh"]}; node ids '
                      f'{m["order"]}; {why}', case, {'vol6_out': str(vol1), 'vol6_in': str(vol0)})
             ctx.count('volume-change:' + why.split(':')[0])
         else:
             ctx.count('volume:exactly-conserved')
+    # ---- the same clause observed through femio's own polyhedron volume kernel (geometry_processor, mode 'linear'): the
+    # oracle above computes the fan volume itself; this ties the assumption that it is what femio computes, on every output
+    if evaluable and not merged_vertices:
+        try:
+            fv1 = float(np.sum(quiet(out.calculate_element_volumes, mode='linear', raise_negative_volume=False, update=False)))
+            fv0 = float(np.sum(quiet(poly.calculate_element_volumes, mode='linear', raise_negative_volume=False, update=False)))
+        except Exception as e:  # noqa
+            ctx.fail('volume:femio-kernel-raises', f'calculate_element_volumes(mode="linear") on the compressed / polyhedral input mesh raised '
+                     f'{type(e).__name__}: {str(e)[:160]}', case, None)
+        else:
+            scale = max(float(fan_abs6(raw_cells, pos0)), float(fan_abs6(out_cells, pos1))) / 6
+            if vol1 == vol0 and abs(fv1 - fv0) > 1e-9 * scale:
+                ctx.fail('volume:femio-kernel-total-changed', f'no vertices were merged and the faces of the output enclose exactly the original '
+                         f'volume {float(vol0 / 6):.12g}, but femio\'s own total (calculate_element_volumes, linear) is {fv1:.12g} on the '
+                         f'compressed mesh and {fv0:.12g} on the input', case, None)
+            if abs(fv1 - float(vol1 / 6)) > 1e-9 * scale or abs(fv0 - float(vol0 / 6)) > 1e-9 * scale:
+                ctx.disagree('femio polyhedron volume kernel (linear) vs the exact fan volume', case, [fv0, fv1], [float(vol0 / 6), float(vol1 / 6)])
+            ctx.count('volume:femio-kernel-compared')
     ctx.case(key, sample={'kind': 'compress', 'mesh': MG.describe(m), **params, 'cells_in': len(raw_cells), 'cells_out': len(out_cells),
                           'nodes_out': K, 'vertices_merged': merged_vertices}, nontrivial=len(out_cells) < len(raw_cells))
     ctx.count(f'mesh:{m["kind"]}:{m["order"]}')
@@ -829,6 +916,46 @@ def run(ctx):
         m, params = shallow_case(ctx.rng, i)
         compress_case(ctx, m, params, 'shallow-angle')
         ctx.count(f'shallow-angle:{m["kind"]}:{m["shallow"]}:cos_thresh={"1" if params["cos_thresh"] == 1.0 else "1-1e-9"}')
+    # stream 'sharp-edge': bodies with knife / blunt / reflex boundary edges (c20_shapes), full sweep of cos_thresh including
+    # negative values and values just above / below the cosines of the body's own edges, dist_thresh = 0: the volume clause
+    import femio.mesh_compressor as MC
+    done_s = 0
+    for i in range(ctx.n(70, 1500)):
+        m, params = _shapes.sharp_case(ctx.rng, i)
+        r = compress_case(ctx, m, params, 'sharp-edge')
+        ctx.count(f'sharp-edge:{m["shape"].split(":")[0]}:{m["kind"]}')
+        ctx.count('sharp-edge:cos_thresh:' + m['thresh_how'])
+        T = params['cos_thresh']
+        if T > 0 and any(c < T - 1e-9 and -c >= T for c in m['cosines']):
+            ctx.count('sharp-edge:cos_thresh between c and |c| of a knife edge of the body (sign-sensitive)')
+        if any(abs(c - T) <= 1e-3 + 1e-12 for c in m['cosines']):
+            ctx.count('sharp-edge:cos_thresh within 1e-3 of the cosine of an edge of the body')
+        if r is not None and i % 7 == 0 and done_s < ctx.n(6, 100):
+            transfer_case(ctx, r[0], r[1], r[2], params['knn'], 1 + done_s % 2)
+            done_s += 1
+    # stream 'thin-layer': vertices ARE merged (dist_thresh between the thin and the unit spacing) and knn in {2, 3, 5}:
+    # both original nodes of a merged pair stand in one neighbour list under the same compressed node
+    for i in range(ctx.n(9, 200)):
+        m, params = _shapes.thin_layer_case(ctx.rng, i)
+        r = compress_case(ctx, m, params, 'thin-layer')
+        if r is None:
+            ctx.count('thin-layer:no-compressed-mesh')
+            continue
+        mc, poly, case = r
+        conv = [int(v) for v in mc.node_conv]
+        n_merged = len([v for v in conv if v >= 0]) - len({v for v in conv if v >= 0})
+        try:
+            nbd = quiet(MC.calculate_nodal_knn, mc.csr_raw, mc.node_conv, mc.node_pos, params['knn'])
+            dup = sum(1 for row in nbd.tolist() if len({v for v in row if v != -1}) < len([v for v in row if v != -1]))
+        except Exception:  # noqa   (a diagnostic of the input distribution only)
+            dup = -1
+        ctx.count('thin-layer:' + ('vertices-merged' if n_merged else 'NO-vertex-merged') + ':knn-lists-with-a-duplicate-representative:'
+                  + ('some' if dup > 0 else 'none' if dup == 0 else 'unknown') + f':knn={params["knn"]}')
+        if i % 3 == 0:
+            k2 = ctx.rng.choice([k for k in (1, 2, 3, 5) if k != params['knn']])
+            transfer_history(ctx, mc, poly, case, [params['knn'], k2, params['knn']], 1 + i % 2)
+        else:
+            transfer_case(ctx, mc, poly, case, params['knn'], 1 + i % 3)
     for i in range(n_merge):
         m, _ = gen_case(ctx.rng, i)
         n = sum(len(b) for b in m['blocks'].values())
